@@ -112,9 +112,78 @@ func (c *Ctx) mbLocks(withMailbox *ssa.Function, fMbMu *types.Var) *mbLockModel 
 		})
 	}
 	if m.modeIdx < 0 {
+		// the side of the lock chosen as a sync.Locker value: l := Locker(mb); if !write { l = mb.RLocker() }
+		for _, g := range append([]*ssa.Function{withMailbox}, fns...) {
+			g := g
+			eng.EachInstr(g, func(in ssa.Instruction) {
+				if !m.ops.isAcq(in) {
+					return
+				}
+				m.lockerEdges(p, in, func(kind string, v ssa.Value, pol bool) {
+					idx := m.modeParamOf(p, v)
+					if idx < 0 || kind != "lock" {
+						return
+					}
+					if bt, isB := v.Type().Underlying().(*types.Basic); isB && bt.Kind() == types.Bool {
+						pp := pol
+						m.modeIdx, m.writeBool = idx, &pp
+					}
+				})
+			})
+		}
+	}
+	if m.modeIdx < 0 {
 		m.problem = "the write acquisition of the mailbox lock is not selected by a parameter of withMailbox"
 	}
 	return m
+}
+
+// lockerEdges: for an acquisition through a sync.Locker phi, reports for each operand of the
+// phi its kind ("lock" for the struct itself, "rlock" for RLocker()) and the boolean condition
+// (value, polarity) under which that operand is the one selected.
+func (m *mbLockModel) lockerEdges(p *eng.Prog, in ssa.Instruction, report func(kind string, cond ssa.Value, pol bool)) bool {
+	call, ok := in.(*ssa.Call)
+	if !ok || !call.Call.IsInvoke() {
+		return false
+	}
+	if f, _ := lockerKinds(call.Common()); f == nil {
+		return false
+	}
+	ph, ok := call.Call.Value.(*ssa.Phi)
+	if !ok {
+		return false
+	}
+	for i, e := range ph.Edges {
+		kind := ""
+		switch x := e.(type) {
+		case *ssa.MakeInterface:
+			kind = "lock"
+		case *ssa.Call:
+			if eng.CalleeName(x.Common()) == "(*sync.RWMutex).RLocker" {
+				kind = "rlock"
+			}
+		}
+		if kind == "" || i >= len(ph.Block().Preds) {
+			continue
+		}
+		pred := ph.Block().Preds[i]
+		fn := ph.Parent()
+		for _, b := range fn.Blocks {
+			for k := 0; k < len(b.Succs) && len(b.Succs) == 2; k++ {
+				direct := b == pred && b.Succs[k] == ph.Block()
+				if !direct && !(eng.EdgeDominates(b, k, pred) && b != pred) {
+					continue
+				}
+				if direct && b.Succs[0] == b.Succs[1] {
+					continue
+				}
+				if v, pol, ok := eng.CondTruth(b, k); ok {
+					report(kind, v, pol)
+				}
+			}
+		}
+	}
+	return true
 }
 
 // modeParamOf: v derives from a parameter of withMailbox (directly, through its cell, or as
@@ -218,6 +287,19 @@ func (m *mbLockModel) deferredRelease() bool {
 		}
 		if call, ok := d.Call.Value.(*ssa.Call); ok {
 			if g := eng.StaticCallee(call.Common()); g != nil && m.releasers[g] {
+				return true
+			}
+		}
+		// `defer l.Unlock()` on the sync.Locker the lock was taken through: the same value,
+		// hence the same side of the mailbox lock
+		if f, kinds := lockerKinds(d.Common()); f != nil && eng.SameField(f, m.fMbMu) && (kinds["unlock"] || kinds["runlock"]) {
+			same := false
+			eng.EachInstr(m.withMailbox, func(in ssa.Instruction) {
+				if call, ok := in.(*ssa.Call); ok && call.Common().IsInvoke() && call.Common().Method.Name() == "Lock" && call.Common().Value == d.Call.Value {
+					same = true
+				}
+			})
+			if same {
 				return true
 			}
 		}
